@@ -25,7 +25,7 @@ func init() {
 	register(&core.Rule{ID: "R-NIL-CLIENT", Props: []string{"C03"}, Doc: "archiver.Client / ClientWithProxy are created under complementary config.Proxy conditions; every dereference is dominated by a nil test of the same field, by the same config condition, or by the assignment itself", Run: ruleNilClient})
 	register(&core.Rule{ID: "R-WARC-CLOSE", Props: []string{"C03"}, Doc: "archiver.Stop: after cancel+wg.Wait every path to return calls Close() on each client field unless that field is nil, each Close preceded by that client's WaitGroup.Wait()", Run: ruleWarcClose})
 	register(&core.Rule{ID: "R-ERRCHAN-DRAIN", Props: []string{"C03"}, Doc: "each WARC client's ErrChan has a reader goroutine that leaves only when the channel is closed: the warc module reports errors with a blocking send while holding the client's WaitGroup, so a reader that stops early wedges archiver.Stop", Run: ruleErrChanDrain})
-	register(&core.Rule{ID: "R-WATCHER-EXIT", Props: []string{"C03"}, Doc: "watcher goroutines: the Done arm of the watcher's select reaches a return and the stop functions cancel before they wait", Run: ruleWatcherExit})
+	register(&core.Rule{ID: "R-WATCHER-EXIT", Props: []string{"C03", "C14"}, Doc: "watcher goroutines: the Done arm of the watcher's select reaches a return and the stop functions cancel before they wait", Run: ruleWatcherExit})
 }
 
 func callsFn(in ssa.Instruction, pkg, name string) bool {
@@ -874,7 +874,21 @@ func ruleWatcherExit(r *core.Reporter) {
 					continue
 				}
 				if _, ok := ir.IsDoneChan(arm.State.Chan); !ok {
-					continue
+					// the Done channel kept in a local that is also set to nil (`done = nil // don't spin`)
+					var leaves []ssa.Value
+					phiLeaves(ir.Strip(arm.State.Chan), map[ssa.Value]bool{}, &leaves)
+					isDone := false
+					for _, l := range leaves {
+						if _, okd := ir.IsDoneChan(l); okd {
+							isDone = true
+						} else if !ir.IsNilConst(l) {
+							isDone = false
+							break
+						}
+					}
+					if !isDone {
+						continue
+					}
 				}
 				n++
 				key := core.FuncName(fn) + "/done-arm"
